@@ -4,6 +4,7 @@ import BasicModel.Lemmas.StackBound
 import BasicModel.Lemmas.Control
 import BasicModel.Lemmas.CodegenShape
 import BasicModel.Lemmas.ExprCompile
+import BasicModel.Lemmas.NoResidue
 /-
   C18 — Memory pools are bounded at 64K and completed statements leave nothing behind.
 
@@ -14,6 +15,19 @@ import BasicModel.Lemmas.ExprCompile
   behind (the repaired defect D6).  A successfully evaluated expression of the fragment `Spec.Pure`
   grows the stack by exactly one value (`expr_pushes_one`), and `LET v = e` leaves it as it found it
   (`let_stack_neutral`).
+
+  "A statement that completes leaves no residue" (section `noResidue`, from the block calculus of
+  `Lemmas/StructCompile.lean` via `Lemmas/NoResidue.lean`): a structured statement — LET, `:`, IF,
+  WHILE, FOR, nested at will — that completes ends with the stack, the code, the data, the DATA cursor
+  and the function table exactly as they were; only the variable store changes, and only in the
+  entries of the variables the statement assigns (`structured_no_residue`); any number of passes of a
+  loop (`loop_any_number_of_passes`, `while_k_passes`, `for_k_passes`).  Beyond that fragment:
+  GOSUB / ON…GOSUB to a block ending in RETURN, LET with a user-function call, PRINT (also in a
+  GOTO loop), READ.  The converse for FOR: the VM has no `for` instruction, FOR pushes its frame
+  unconditionally, so a FOR left by GOTO and entered again grows the stack by four values per round
+  until OUT OF MEMORY (`abandoned_for_*`), after which `execute` empties the stack and the session
+  goes on (`abandoned_for_session`).  The variable pool and the invariant "no slot holds a default
+  value" are in `Thm/C18Vars.lean` (runtime chain 2) and `Lemmas/VarPool.lean`.
 -/
 namespace Basic
 namespace Thm.C18
@@ -325,6 +339,351 @@ example : (runOps exEnv false exLetCode exLetRt).2.vars.vars = [("B%".toList, .i
 example : (runOps exEnv false exLetCode exLetRt).2.pc = 7 := by decide
 
 end expressions
+
+/-! ### a statement that completes leaves no residue -/
+
+section noResidue
+open Basic.Spec Basic.Lemmas.ExprCompile Basic.Lemmas.StructCompile Basic.Lemmas.NoResidue Basic.Lemmas.VarPool
+open Basic.Lemmas.FnCall
+
+/-- **A structured statement that completes leaves no residue.**  Let the code of `p` (LET, `:`, IF,
+    WHILE, FOR, nested at will; pure expressions) lie at `s.pc` — trace off, `size p` free stack slots,
+    jumps not gated.  If the semantics answers `.ok σ'` with ANY fuel (the fuel bounds the passes of
+    every loop, so: after any number of passes), then some number of steps, all answering `continue`,
+    lead to a state `s'` with
+    * the stack exactly the stack of `s` (every FOR frame, every temporary is gone),
+    * the program — code, DATA, DATA cursor, symbols —, the function table, the listing and the
+      session state as in `s`: no other pool has been touched,
+    * the variables `σ'`, which differ from those of `s` only in the entries of the variables `p`
+      assigns (`Within`: dimensions and DEFtypes as before, every key an old key or an assigned name,
+      distinct keys still distinct, still no slot holding a default value); with distinct keys the pool
+      has grown by at most the number of DISTINCT assigned names. -/
+theorem structured_no_residue (env : Env) (hie : Bool) (fuel : Nat) (p : SStmt) (hp : p.Pure) (s : Runtime)
+    (hcode : CodeAt s.program.link.ops s.pc (compile p s.pc)) (htr : s.tron = false)
+    (hroom : s.stack.size + size p ≤ 65535) (hgate : hie = false ∨ s.entryAddress ≤ s.pc)
+    (σ' : Var) (h : exec fuel s.vars p = some (.ok σ')) :
+    ∃ n s', runSteps env hie n s = (.ok .continue, s') ∧
+      s'.stack = s.stack ∧ s'.pc = s.pc + size p ∧ s'.vars = σ' ∧
+      s'.program = s.program ∧ s'.functions = s.functions ∧ s'.listing = s.listing ∧ s'.state = s.state ∧
+      Within (assigned p) s.vars σ' ∧
+      (AL.NoDup s.vars.vars → σ'.vars.length ≤ s.vars.vars.length + (assigned p).eraseDups.length) := by
+  have hpl : Placed hie (compile p) s := ⟨hcode, htr, by rw [compile_length]; exact hroom, hgate⟩
+  have hg := exec_implemented env hie fuel p hp s hpl _ h
+  rw [compile_length] at hg
+  obtain ⟨n, hn⟩ := hg
+  have hw := exec_within stepNeg fuel p s.vars σ' h
+  exact ⟨n, _, hn, rfl, rfl, rfl, rfl, rfl, rfl, rfl, hw, fun hd => within_length hw hd⟩
+
+/-- **"a loop executing any terminating statement sequence any number of times never runs out of
+    memory"**, for the structured fragment: `FOR v = a TO b STEP st : p : NEXT v` around any structured
+    `p`, and `WHILE c : p : WEND`.  The room the theorem asks for is the length of the loop's code — it
+    does not depend on the number of passes —, and whenever the loop ends (`fuel` arbitrary) the stack
+    is the one it started with. -/
+theorem loop_any_number_of_passes (env : Env) (hie : Bool) (fuel : Nat) (p : SStmt) (hp : p.Pure) :
+    (∀ (v : Str) (a b st : Expr), Spec.Pure a → Spec.Pure b → Spec.Pure st → ∀ (s : Runtime),
+      CodeAt s.program.link.ops s.pc (compile (.for v a b st p) s.pc) → s.tron = false →
+      s.stack.size + size (.for v a b st p) ≤ 65535 → (hie = false ∨ s.entryAddress ≤ s.pc) →
+      ∀ σ', exec fuel s.vars (.for v a b st p) = some (.ok σ') →
+        ∃ n s', runSteps env hie n s = (.ok .continue, s') ∧ s'.stack = s.stack ∧ s'.vars = σ' ∧
+          s'.program = s.program ∧ s'.functions = s.functions) ∧
+    (∀ (c : Expr), Spec.Pure c → ∀ (s : Runtime),
+      CodeAt s.program.link.ops s.pc (compile (.while c p) s.pc) → s.tron = false →
+      s.stack.size + size (.while c p) ≤ 65535 → (hie = false ∨ s.entryAddress ≤ s.pc) →
+      ∀ σ', exec fuel s.vars (.while c p) = some (.ok σ') →
+        ∃ n s', runSteps env hie n s = (.ok .continue, s') ∧ s'.stack = s.stack ∧ s'.vars = σ' ∧
+          s'.program = s.program ∧ s'.functions = s.functions) := by
+  constructor
+  · intro v a b st ha hb hs s hcode htr hroom hgate σ' h
+    obtain ⟨n, s', h1, h2, _, h3, h4, h5, _⟩ :=
+      structured_no_residue env hie fuel (.for v a b st p) ⟨ha, hb, hs, hp⟩ s hcode htr hroom hgate σ' h
+    exact ⟨n, s', h1, h2, h3, h4, h5⟩
+  · intro c hc s hcode htr hroom hgate σ' h
+    obtain ⟨n, s', h1, h2, _, h3, h4, h5, _⟩ :=
+      structured_no_residue env hie fuel (.while c p) ⟨hc, hp⟩ s hcode htr hroom hgate σ' h
+    exact ⟨n, s', h1, h2, h3, h4, h5⟩
+
+/-- **WHILE with an explicit number of passes**: if the condition holds and the body `p` leads from
+    `τ i` to `τ (i+1)` for `i < k`, and the condition fails in `τ k`, the machine makes those `k`
+    passes — `k` ARBITRARY, 65 536 and more included; the room asked for does not mention `k` — and
+    ends past the loop with the variables `τ k` and everything else, the stack included, as before -/
+theorem while_k_passes (env : Env) (hie : Bool) (fuel : Nat) (c : Expr) (hc : Spec.Pure c) (p : SStmt) (hp : p.Pure)
+    (s : Runtime) (hcode : CodeAt s.program.link.ops s.pc (compile (.while c p) s.pc)) (htr : s.tron = false)
+    (hroom : s.stack.size + size (.while c p) ≤ 65535) (hgate : hie = false ∨ s.entryAddress ≤ s.pc)
+    (k : Nat) (τ : Nat → Var) (h0 : τ 0 = s.vars)
+    (hpass : ∀ i, i < k → holds (τ i) c = .ok true ∧ exec fuel (τ i) p = some (.ok (τ (i + 1))))
+    (hend : holds (τ k) c = .ok false) :
+    ∃ n, runSteps env hie n s = (.ok .continue, { s with pc := s.pc + size (.while c p), vars := τ k }) := by
+  have hpl : Placed hie (whileCode c (size p) (compile p)) s :=
+    ⟨hcode, htr, by rw [whileCode_length c _ _ (compile_length p)]; exact hroom, hgate⟩
+  exact while_passes_no_residue hc (size p) (compile_length p) (exec_implemented env hie fuel p hp) s hpl k τ h0
+    hpass hend
+
+/-- **FOR with an explicit number of passes** (`k + 1`, `k` arbitrary): `τ i` the variables at the start
+    of pass `i`, `υ i` after the body; NEXT says "again" after the passes before the last and "done"
+    after the last -/
+theorem for_k_passes (env : Env) (hie : Bool) (fuel : Nat) (v : Str) (a b st : Expr) (ha : Spec.Pure a)
+    (hb : Spec.Pure b) (hst : Spec.Pure st) (p : SStmt) (hp : p.Pure)
+    (s : Runtime) (hcode : CodeAt s.program.link.ops s.pc (compile (.for v a b st p) s.pc)) (htr : s.tron = false)
+    (hroom : s.stack.size + size (.for v a b st p) ≤ 65535) (hgate : hie = false ∨ s.entryAddress ≤ s.pc)
+    (k : Nat) (τ υ : Nat → Var) (σ' : Var) (toV stepV : Val)
+    (hinit : forInit s.vars v a b st = .ok (τ 0, toV, stepV))
+    (hbody : ∀ i, i ≤ k → exec fuel (τ i) p = some (.ok (υ i)))
+    (hnext : ∀ i, i < k → nextStep stepNeg (υ i) v toV stepV = some (.ok (τ (i + 1), true)))
+    (hend : nextStep stepNeg (υ k) v toV stepV = some (.ok (σ', false))) :
+    ∃ n, runSteps env hie n s = (.ok .continue, { s with pc := s.pc + size (.for v a b st p), vars := σ' }) := by
+  have hpl : Placed hie (forCode v a b st (compile p)) s :=
+    ⟨hcode, htr, by rw [forCode_length v a b st _ _ (compile_length p)]; exact hroom, hgate⟩
+  exact for_passes_no_residue ha hb hst (size p) (compile_length p) (exec_implemented env hie fuel p hp) v s hpl k τ υ
+    σ' toV stepV hinit hbody hnext hend
+
+/-- **GOSUB** to a subroutine whose body is a structured block followed by RETURN: control comes
+    back after the GOSUB with the stack as before (the return address pushed by the call is popped
+    by RETURN, `gosub_return_balanced`; the block is neutral) -/
+theorem gosub_structured_balanced (env : Env) (hie : Bool) (fuel : Nat) (p : SStmt) (hp : p.Pure) (s : Runtime)
+    (sub : Nat) (hcall : CodeAt s.program.link.ops s.pc (gosubCode sub s.pc))
+    (hsub : CodeAt s.program.link.ops sub (subCode (compile p) sub)) (htr : s.tron = false)
+    (hroom : s.stack.size + 1 + size p ≤ 65535) (hgate : hie = false ∨ s.entryAddress ≤ sub)
+    (σ' : Var) (h : exec fuel s.vars p = some (.ok σ')) :
+    ∃ n, runSteps env hie n s = (.ok .continue, { s with pc := s.pc + 2, vars := σ' }) :=
+  gosub_block_balanced (exec_implemented env hie fuel p hp) s sub hcall hsub htr
+    (by rw [compile_length]; exact hroom) hgate (.ok σ') h
+
+/-- **ON … GOSUB**, both ways: a selector that picks the `j`-th target — a structured block followed by
+    RETURN — and a selector that picks nothing (0, or beyond the list: the repaired D6) both end after
+    the statement with the stack as before -/
+theorem on_gosub_balanced (env : Env) (hie : Bool) {sel : Expr} (hsel : Spec.Pure sel) (targets : List Nat)
+    (s : Runtime) (hcode : CodeAt s.program.link.ops s.pc (onGosubCode sel targets s.pc)) (htr : s.tron = false)
+    (hroom : s.stack.size + 2 + (flat sel).length ≤ 65535) (hk : targets.length ≤ 32767)
+    (selV : Val) (j : Int16) (hv : eval s.vars sel = .ok selV) (hj : selV.toI16 = .ok j) :
+    ((j.toInt = 0 ∨ j.toInt > targets.length) →
+      ∃ n, runSteps env hie n s = (.ok .continue, { s with pc := s.pc + (onGosubCode sel targets s.pc).length })) ∧
+    (∀ (fuel : Nat) (p : SStmt) (sub : Nat) (σ' : Var), p.Pure → 1 ≤ j.toInt → j.toInt ≤ targets.length →
+      targets[j.toInt.toNat - 1]? = some sub → CodeAt s.program.link.ops sub (subCode (compile p) sub) →
+      s.stack.size + 1 + size p ≤ 65535 → (hie = false ∨ s.entryAddress ≤ sub) →
+      exec fuel s.vars p = some (.ok σ') →
+      ∃ n, runSteps env hie n s =
+        (.ok .continue, { s with pc := s.pc + (onGosubCode sel targets s.pc).length, vars := σ' })) := by
+  constructor
+  · intro hfall
+    have hj0 : 0 ≤ j.toInt := by omega
+    exact on_gosub_fallthrough_goes env hie hsel targets s hcode htr hroom hk selV j hv hj hj0 hfall
+  · intro fuel p sub σ' hp hj1 hjk htarget hsub hroomB hgate h
+    exact on_gosub_selected_balanced hsel targets (exec_implemented env hie fuel p hp) s hcode htr hroom hk selV j hv hj
+      hj1 hjk sub htarget hsub (by rw [compile_length]; exact hroomB) hgate (.ok σ') h
+
+/-- **`LET x = FNname(args)`**: the call (return address, arguments, the function's parameter
+    assignments, its body, RETURN) and the assignment together leave the stack as it was -/
+theorem let_call_stack_neutral (env : Env) (hie : Bool) {s : Runtime} {name : Str} {params : List Str} {body : Expr}
+    {args : List Expr} {entry : Nat} (hs : CallSite s name params body args entry)
+    (harity : params.length = args.length) (x : Str)
+    (hpop : s.program.link.ops[s.pc + (callCode name args).length]? = some (.pop x))
+    {v : Val} {vars' vars'' : Var} (h : evalCall s.vars params body args = .ok (v, vars'))
+    (hst : vars'.store x v = .ok vars'') :
+    ∃ n, runSteps env hie n s =
+      (.ok .continue, { s with pc := s.pc + (callCode name args).length + 1, vars := vars'' }) :=
+  let_call_goes env hie hs harity x hpop h hst
+
+/-- **PRINT and READ**: a PRINT statement that completes leaves stack and variables as they were; a
+    READ list leaves the stack as it was, whether it completes or stops in an error; a GOTO loop
+    around a PRINT statement is, after `k` passes (`k` arbitrary), the machine it started as except for
+    the print column -/
+theorem print_read_no_residue (env : Env) (hie : Bool) :
+    (∀ (items : List PrItem), (∀ it ∈ items, it.Ok) → ∀ (s : Runtime),
+      CodeAt s.program.link.ops s.pc (Lemmas.PrintRun.stmtCode items) → s.tron = false →
+      s.stack.size + (Lemmas.PrintRun.stmtCode items).length ≤ Gen.stackMaxLen →
+      (printSpec s.vars s.printCol items).err = none → ∀ acc,
+      (Lemmas.PrintRun.runCollect env hie (Lemmas.PrintRun.stmtCode items).length s acc).2.1.stack = s.stack ∧
+      (Lemmas.PrintRun.runCollect env hie (Lemmas.PrintRun.stmtCode items).length s acc).2.1.vars = s.vars ∧
+      (Lemmas.PrintRun.runCollect env hie (Lemmas.PrintRun.stmtCode items).length s acc).1 = .done) ∧
+    (∀ (names : List Str) (s : Runtime), CodeAt s.program.link.ops s.pc (Lemmas.ReadRun.readCode names) →
+      s.tron = false → s.stack.size + 1 ≤ Gen.stackMaxLen →
+      (runOps env hie (Lemmas.ReadRun.readCode names) s).2.stack = s.stack) ∧
+    (∀ (items : List PrItem), (∀ it ∈ items, it.Ok) → ∀ (k : Nat) (s : Runtime) (acc : List Str),
+      CodeAt s.program.link.ops s.pc (printLoopCode items s.pc) → s.tron = false →
+      s.stack.size + (Lemmas.PrintRun.stmtCode items).length ≤ Gen.stackMaxLen →
+      (hie = false ∨ s.entryAddress ≤ s.pc) → (∀ c, (printSpec s.vars c items).err = none) →
+      Lemmas.PrintRun.runCollect env hie (k * ((Lemmas.PrintRun.stmtCode items).length + 1)) s acc =
+        (.done, { s with printCol := printLoopCol s.vars items k s.printCol },
+         acc ++ printLoopChunks s.vars items k s.printCol)) :=
+  ⟨fun items hok s hcode htr hroom herr acc => print_no_residue env hie items hok s hcode htr hroom herr acc,
+   fun names s hcode htr hroom => read_no_residue env hie names s hcode htr hroom,
+   fun items hok k s acc hcode htr hroom hgate herr =>
+     print_loop_no_residue env hie items hok k s acc hcode htr hroom hgate herr⟩
+
+/-! ### abandoned FOR loops -/
+
+/-- **FOR does not reuse or drop an older frame of its variable** (the model, like `runtime.rs`, has no
+    `for` instruction: `codegen.rs` `r#for` emits the start value's assignment and four pushes).
+    Entering `FOR v = a TO b STEP st` pushes four values on whatever stack it finds. -/
+theorem for_always_pushes_a_frame (env : Env) (hie : Bool) {a b st : Expr} (hpa : Spec.Pure a) (hpb : Spec.Pure b)
+    (hps : Spec.Pure st) (name : Str) (s : Runtime)
+    (hcode : CodeAt s.program.link.ops s.pc (forEntryCode name a b st s.pc)) (htr : s.tron = false)
+    (hroom : s.stack.size + forInitLen a b st ≤ Gen.stackMaxLen)
+    {σ1 : Var} {t sv : Val} (hi : forInit s.vars name a b st = .ok (σ1, t, sv)) :
+    ∃ n s', runSteps env hie n s = (.ok .continue, s') ∧ s'.stack.size = s.stack.size + 4 ∧
+      s'.stack = s.stack ++ forFrame t sv name (s.pc + forInitLen a b st) := by
+  obtain ⟨n, hn⟩ := for_entry_pushes_frame env hie hpa hpb hps name s hcode htr hroom hi
+  exact ⟨n, _, hn, by simp [forFrame], rfl⟩
+
+/-- **a FOR left by GOTO and entered again `k` times has grown the stack by `4·k` values** -/
+theorem abandoned_for_grows (env : Env) (hie : Bool) {a b st : Expr} (hpa : Spec.Pure a) (hpb : Spec.Pure b)
+    (hps : Spec.Pure st) (name : Str) (k : Nat) (s : Runtime) (τ : Nat → Var)
+    (hcode : CodeAt s.program.link.ops s.pc (abandonCode name a b st s.pc)) (htr : s.tron = false)
+    (hgate : hie = false ∨ s.entryAddress ≤ s.pc)
+    (hroom : s.stack.size + 4 * k + forInitLen a b st ≤ Gen.stackMaxLen + 4) (h0 : τ 0 = s.vars)
+    (hinit : ∀ i, i < k → ∃ t sv, forInit (τ i) name a b st = .ok (τ (i + 1), t, sv)) :
+    ∃ n s', runSteps env hie n s = (.ok .continue, s') ∧ s'.stack.size = s.stack.size + 4 * k ∧
+      s'.pc = s.pc ∧ s'.vars = τ k := by
+  obtain ⟨frames, hsz, n, hn⟩ := abandoned_for_rounds env hie hpa hpb hps name k s τ hcode htr hgate hroom h0 hinit
+  exact ⟨n, _, hn, by show (s.stack ++ frames).size = _; rw [Array.size_append, hsz], rfl, rfl⟩
+
+/-- **"abandoned FOR loops … end in OUT OF MEMORY"**: the program `10 FOR I%=1 TO 2` / `20 GOTO 10`,
+    started by RUN, completes 16 383 rounds (65 532 values on the stack) and fails in the next with
+    OUT OF MEMORY "STACK OVERFLOW", the stack holding 65 536 values — never more -/
+theorem abandoned_for_out_of_memory (env : Env) (hie : Bool) (s : Runtime) (h : AbandonedStart s)
+    (hgate : hie = false ∨ s.entryAddress ≤ s.pc) :
+    (∀ k, 1 ≤ k → k ≤ 16383 → ∃ n s', runSteps env hie n s = (.ok .continue, s') ∧ s'.stack.size = 4 * k) ∧
+    ∃ n s', runSteps env hie n s = (.error stackOverflow, s') ∧ s'.stack.size = 65536 ∧
+      stackOverflow.code = Code.outOfMemory ∧ s'.vars = abandonedV1 ∧ s'.program = s.program := by
+  constructor
+  · intro k hk1 hk
+    obtain ⟨frames, hsz, n, hn⟩ := abandonedLoop_rounds env hie s h hgate k hk1 hk
+    exact ⟨n, _, hn, hsz⟩
+  · obtain ⟨n, stk, hsz, hn⟩ := abandonedLoop_overflows env hie s h hgate
+    exact ⟨n, _, hn, hsz, rfl, rfl, rfl⟩
+
+/-- **"… and the session stays usable afterwards"**: `execute` on that program (quantum large enough to
+    reach the failure) returns with OUT OF MEMORY recorded and the stack EMPTY (`r.stack = #[]`: an
+    error on a full stack clears it, also inside a program), nothing to continue, the variables, the
+    program and the listing untouched; the next `execute` reports the error and stops; a direct line
+    entered then is compiled and started with an empty stack and the variables as they were. -/
+theorem abandoned_for_session (env : Env) (s : Runtime) (h : AbandonedStart s) (hst : s.state = .running)
+    (hde : s.listing.directErrors.isEmpty = true) (hie : s.listing.indirectErrors.isEmpty = true)
+    (hcol : s.printCol = 0) :
+    ∃ n, ∀ q, n ≤ q → ∃ r e,
+      execute env s q = (r, .running) ∧ r.state = .runtimeError e ∧ e.code = Code.outOfMemory ∧
+      e.msg = "STACK OVERFLOW" ∧ r.stack = #[] ∧ r.cont = .stopped ∧ r.vars = abandonedV1 ∧
+      r.program = s.program ∧ r.listing = s.listing ∧
+      (∀ q', execute env r q' = ({ r with state := .stopped }, .errors [e])) ∧
+      (∀ line, ¬ RStd.utf8Len line > Gen.maxLineLen → (env.lex line).number = none → (env.lex line).tokens ≠ [] →
+        enter env { r with state := .stopped } line = enterDirect { r with state := .stopped } (env.lex line) ∧
+        (enter env { r with state := .stopped } line).stack = #[] ∧
+        (enter env { r with state := .stopped } line).vars = abandonedV1 ∧
+        (enter env { r with state := .stopped } line).state = .running) := by
+  obtain ⟨n, hn⟩ := abandonedLoop_execute env s h hst hde hie
+  refine ⟨n, fun q hq => ⟨_, stackOverflow.inLine (s.program.link.lineNumberFor 5), hn q hq, rfl, rfl, rfl, rfl, rfl,
+    rfl, rfl, rfl, ?_, ?_⟩⟩
+  · intro q'
+    exact execute_reports_error env _ q' _ rfl hcol
+  · intro line hlen hnum htok
+    obtain ⟨h1, h2, h3, h4, _⟩ := enter_direct_line env
+      { ({ s with pc := 6, vars := abandonedV1, stack := #[], cont := .stopped, contPc := 6,
+                  state := .runtimeError (stackOverflow.inLine (s.program.link.lineNumberFor 5)) } : Runtime) with
+        state := .stopped } line rfl hlen hnum htok
+    exact ⟨h1, h2, h3, h4⟩
+
+/-- the general form (any program): a slice that fails on a full stack — more than 65 503 values, as
+    after every failed push — makes `execute` clear the stack -/
+theorem full_stack_error_clears (env : Env) (s s' : Runtime) (q : Nat) (e : Error)
+    (hst : s.state = .running) (hde : s.listing.directErrors.isEmpty = true)
+    (hrun : runSteps env (!s.listing.indirectErrors.isEmpty) q s = (.error e, s'))
+    (hs' : s'.state = .running) (hfull : isFull s' = true) :
+    (execute env s q).1.stack = #[] ∧ (execute env s q).1.cont = .stopped ∧
+    (execute env s q).1.state = .runtimeError (e.inLine (lineNumber s')) ∧ (execute env s q).1.vars = s'.vars := by
+  rw [execute_error_full_clears env s s' q e hst hde hrun hs' hfull]
+  exact ⟨rfl, rfl, rfl, rfl⟩
+
+/-! ### non-vacuity -/
+
+/-- `S% = 0 : FOR I% = 1 TO 3 STEP 1 : FOR J% = 1 TO 2 STEP 1 : S% = S% + J% : NEXT J% : NEXT I%` -/
+def exNest : SStmt :=
+  .seq (.assign "S%".toList (cI 0))
+    (.for "I%".toList (cI 1) (cI 3) (cI 1)
+      (.for "J%".toList (cI 1) (cI 2) (cI 1)
+        (.assign "S%".toList (.bin .add (0, 0) (.var (.unary (0, 0) (.integer "S%".toList)))
+          (.var (.unary (0, 0) (.integer "J%".toList)))))))
+
+example : exNest.Pure := by decide
+example : assigned exNest = ["S%".toList, "I%".toList, "J%".toList, "S%".toList] := by decide
+example : (assigned exNest).eraseDups.length = 3 := by decide
+/-- six passes of the inner body; `S% = 9`, the counters one past their limits — three slots -/
+example : ((execWith (oneStep 1 false) 8 { vars := [] } exNest).bind (·.toOption)).map (·.vars) =
+    some [("I%".toList, .int 4), ("J%".toList, .int 3), ("S%".toList, .int 9)] := by decide
+
+/-- the machine of the examples: code at address 2, two values on the stack -/
+def exMach (code : List Opcode) (vars : List (Str × Val)) : Runtime :=
+  { program := { link := { ops := #[.end, .end] ++ code.toArray ++ #[.end] } },
+    pc := 2, stack := #[.int 7, .ret 3], vars := { vars := vars } }
+
+/-- `Float` is opaque to the kernel: the sign of the step `1` is a hypothesis (as in `Thm.C01`) -/
+example (h : stepNeg (.int 1) = some false) :
+    ∃ n s', runSteps exEnv false n (exMach (compile exNest 2) []) = (.ok .continue, s') ∧
+      s'.stack = #[.int 7, .ret 3] ∧ s'.vars.vars.length ≤ 0 + 3 := by
+  have hd : ∃ σ', execWith (oneStep 1 false) 8 { vars := [] } exNest = some (.ok σ') := by
+    cases hx : execWith (oneStep 1 false) 8 { vars := [] } exNest with
+    | none =>
+      have : ((execWith (oneStep 1 false) 8 { vars := [] } exNest).bind (·.toOption)).map (·.vars) =
+        some [("I%".toList, .int 4), ("J%".toList, .int 3), ("S%".toList, .int 9)] := by decide
+      rw [hx] at this; cases this
+    | some r =>
+      cases r with
+      | ok σ' => exact ⟨σ', rfl⟩
+      | error e =>
+        have : ((execWith (oneStep 1 false) 8 { vars := [] } exNest).bind (·.toOption)).map (·.vars) =
+          some [("I%".toList, .int 4), ("J%".toList, .int 3), ("S%".toList, .int 9)] := by decide
+        rw [hx] at this; cases this
+  obtain ⟨σ', hσ⟩ := hd
+  have hσ' := execWith_mono (negLe_oneStep h) 8 exNest _ _ hσ
+  obtain ⟨n, s', h1, h2, _, h3, _, _, _, _, _, h4⟩ :=
+    structured_no_residue exEnv false 8 exNest (by decide) (exMach (compile exNest 2) [])
+      (CodeAt.of_append #[.end, .end] #[.end] (compile exNest 2)) rfl (by decide) (.inl rfl) σ' hσ'
+  refine ⟨n, s', h1, h2, ?_⟩
+  rw [h3]
+  exact h4 AL.noDup_nil
+
+/-- GOSUB 9 (at 2) … subroutine at 9: `B% = A% + 1`, RETURN: back at 4, stack as before -/
+def exGosub : Runtime :=
+  { program := { link := { ops := (#[.end, .end] ++ (gosubCode 9 2).toArray ++ #[.end, .end, .end, .end, .end] ++
+      (subCode (compile (.assign "B%".toList (.bin .add (0, 0) (.var (.unary (0, 0) (.integer "A%".toList))) (cI 1)))) 9).toArray) } },
+    pc := 2, stack := #[.int 7, .ret 3], vars := { vars := [("A%".toList, .int 20)] } }
+
+example : (runSteps exEnv false 7 exGosub).2.stack = #[.int 7, .ret 3] ∧ (runSteps exEnv false 7 exGosub).2.pc = 4 ∧
+    (runSteps exEnv false 7 exGosub).2.vars.vars = [("B%".toList, .int 21), ("A%".toList, .int 20)] := by decide +kernel
+example : (runSteps exEnv false 2 exGosub).2.stack = #[.int 7, .ret 3, .ret 4] := by decide +kernel
+
+/-- `ON A% GOSUB 20,20` (targets = address 20) at 2; subroutine at 20: `B% = 5`, RETURN -/
+def exOnGosub (a : Int16) : Runtime :=
+  { program := { link := { ops := (#[.end, .end] ++
+      (onGosubCode (.var (.unary (0, 0) (.integer "A%".toList))) [20, 20] 2).toArray ++
+      Array.replicate 11 .end ++ (subCode (compile (.assign "B%".toList (cI 5))) 20).toArray) } },
+    pc := 2, stack := #[.int 7], vars := { vars := [("A%".toList, .int a)] } }
+
+example : (onGosubCode (.var (.unary (0, 0) (.integer "A%".toList))) [20, 20] 2).length = 7 := by decide
+/-- selected (`A% = 2`): dispatch 4 steps, jump, 2 steps of the block, RETURN — at 9 with the stack as before -/
+example : (runSteps exEnv false 8 (exOnGosub 2)).2.stack = #[.int 7] ∧ (runSteps exEnv false 8 (exOnGosub 2)).2.pc = 9 ∧
+    (runSteps exEnv false 8 (exOnGosub 2)).2.vars.vars = [("B%".toList, .int 5), ("A%".toList, .int 2)] := by decide +kernel
+/-- not selected (`A% = 3`, `A% = 0`): dispatch, RETURN -/
+example : (runSteps exEnv false 5 (exOnGosub 3)).2.stack = #[.int 7] ∧ (runSteps exEnv false 5 (exOnGosub 3)).2.pc = 9 := by
+  decide +kernel
+example : (runSteps exEnv false 5 (exOnGosub 0)).2.stack = #[.int 7] ∧ (runSteps exEnv false 5 (exOnGosub 0)).2.pc = 9 := by
+  decide +kernel
+
+/-- `10 FOR I%=1 TO 2` / `20 GOTO 10` after RUN's CLEAR -/
+def exAbandoned : Runtime :=
+  { program := { link := { ops := abandonedOps.toArray ++ #[.end, .clear, .jump 0, .end] } },
+    pc := 0, entryAddress := 8, state := .running }
+
+example : AbandonedStart exAbandoned := ⟨by decide, rfl, rfl, rfl, rfl⟩
+/-- one round: four values; two rounds: eight — the first frame is still there -/
+example : (runSteps exEnv false 7 exAbandoned).2.stack = #[.int 2, .int 1, .str "I%".toList, .nxt 6] ∧
+    (runSteps exEnv false 7 exAbandoned).2.pc = 0 := by decide +kernel
+example : (runSteps exEnv false 14 exAbandoned).2.stack =
+    #[.int 2, .int 1, .str "I%".toList, .nxt 6, .int 2, .int 1, .str "I%".toList, .nxt 6] := by decide +kernel
+example : ∃ n s', runSteps exEnv false n exAbandoned = (.error stackOverflow, s') ∧ s'.stack.size = 65536 :=
+  let ⟨n, s', h1, h2, _⟩ := (abandoned_for_out_of_memory exEnv false exAbandoned ⟨by decide, rfl, rfl, rfl, rfl⟩ (.inl rfl)).2
+  ⟨n, s', h1, h2⟩
+
+end noResidue
 
 end Thm.C18
 end Basic
